@@ -163,6 +163,8 @@ func (a *Unary) eval(val Value) Value {
 		return OpNot(val)
 	case tok.BitNot:
 		return OpBitNot(val)
+	case tok.Div: // from folder, e.g. 10 / x => [/ x, 10]
+		return OpDiv(One, val)
 	case tok.LParen:
 		return val
 	}
